@@ -4,6 +4,8 @@ use std::collections::BTreeMap;
 
 use proto::FrameStats;
 
+use crate::sim::Rec as _RecAlias;
+
 use crate::{
     sim::{App, Rec, World},
     wire::{self, PType, WFrame, WPacket},
@@ -123,4 +125,130 @@ pub fn excess_rx(
         }
     }
     out
+}
+
+/// Flow-control ledger (C05): per sender, use (from its emitted datagrams) never exceeds
+/// credit (from the peer's transport parameters and MAX_* frames in datagrams delivered to it).
+pub fn flow_violations(
+    p: &crate::scen::StdPair,
+    client_params: &[u8],
+    server_params: &[u8],
+) -> (Vec<(String, String)>, u64) {
+    use crate::sim::{CLIENT, SERVER};
+    use crate::wire::*;
+    let mut out = vec![];
+    let mut near = 0u64; // how often use came within one byte/stream of credit (vacuity guard)
+    let tp = [
+        parse_transport_params(server_params).unwrap_or_default(), // credit for CLIENT comes from server params
+        parse_transport_params(client_params).unwrap_or_default(),
+    ];
+    // index by sender node: SERVER=0 gets client's params, CLIENT=1 gets server's
+    let params_for = |sender: usize| if sender == CLIENT { &tp[0] } else { &tp[1] };
+    #[derive(Default)]
+    struct S {
+        max_data: u64,
+        msd: BTreeMap<u64, u64>,
+        max_streams: [u64; 2], // [bidi, uni]
+        used: BTreeMap<u64, u64>,
+        seen_streams: [u64; 2],
+    }
+    let mut st: [S; 2] = [S::default(), S::default()];
+    for sender in [SERVER, CLIENT] {
+        let t = params_for(sender);
+        st[sender].max_data = tp_int(t, TP_MAX_DATA).unwrap_or(0);
+        st[sender].max_streams = [tp_int(t, TP_MAX_STREAMS_BIDI).unwrap_or(0), tp_int(t, TP_MAX_STREAMS_UNI).unwrap_or(0)];
+    }
+    let initial_msd = |sender: usize, id: u64| -> u64 {
+        let t = params_for(sender);
+        let sender_is_client = sender == CLIENT;
+        let initiated_by_sender = sid_client_initiated(id) == sender_is_client;
+        if !sid_is_bidi(id) {
+            tp_int(t, TP_MSD_UNI).unwrap_or(0)
+        } else if initiated_by_sender {
+            tp_int(t, TP_MSD_BIDI_REMOTE).unwrap_or(0)
+        } else {
+            tp_int(t, TP_MSD_BIDI_LOCAL).unwrap_or(0)
+        }
+    };
+    let mut emitted: BTreeMap<u64, (usize, Vec<u8>, std::net::SocketAddr)> = BTreeMap::new();
+    for r in &p.w.recs {
+        match r {
+            Rec::Emit { node, idx, data, dst, ch: Some(_), t, .. } if *node < 2 => {
+                emitted.insert(*idx, (*node, data.clone(), *dst));
+                let cl = cid_len_of(&p.w, *dst);
+                let s = &mut st[*node];
+                for (pk, frames) in decode(data, cl) {
+                    if pk.ty == PType::ZeroRtt {
+                        continue; // 0-RTT is judged against remembered parameters in C17
+                    }
+                    for f in frames {
+                        let (id, end) = match f {
+                            WFrame::Stream { id, off, data, .. } => (id, off + data.len() as u64),
+                            WFrame::ResetStream { id, final_size, .. } => (id, final_size),
+                            _ => continue,
+                        };
+                        let sender_is_client = *node == CLIENT;
+                        if sid_client_initiated(id) == sender_is_client {
+                            let d = if sid_is_bidi(id) { 0 } else { 1 };
+                            let n = sid_index(id) + 1;
+                            s.seen_streams[d] = s.seen_streams[d].max(n);
+                            if n == s.max_streams[d] {
+                                near += 1;
+                            }
+                            if n > s.max_streams[d] {
+                                out.push((
+                                    "stream-count-exceeded".into(),
+                                    format!("node{node} at {t:?} used stream {id} (index {}), peer allows {} {} streams", n - 1, s.max_streams[d], if d == 0 { "bidi" } else { "uni" }),
+                                ));
+                            }
+                        }
+                        let lim = *s.msd.entry(id).or_insert_with(|| initial_msd(*node, id));
+                        let u = s.used.entry(id).or_insert(0);
+                        *u = (*u).max(end);
+                        if end == lim {
+                            near += 1;
+                        }
+                        if end > lim {
+                            out.push(("stream-limit-exceeded".into(), format!("node{node} at {t:?} sent stream {id} up to offset {end}, peer's limit {lim}")));
+                        }
+                        let total: u64 = s.used.values().sum();
+                        if total == s.max_data {
+                            near += 1;
+                        }
+                        if total > s.max_data {
+                            out.push(("connection-limit-exceeded".into(), format!("node{node} at {t:?} sent {total} bytes over all streams, peer's connection limit {}", s.max_data)));
+                        }
+                    }
+                }
+            }
+            Rec::Deliver { node, idx, routed: crate::sim::Routed::Conn(_), .. } if *node < 2 => {
+                let Some((from, data, dst)) = emitted.get(idx) else { continue };
+                if *from == *node {
+                    continue;
+                }
+                let cl = cid_len_of(&p.w, *dst);
+                let s = &mut st[*node];
+                for (_, frames) in decode(data, cl) {
+                    for f in frames {
+                        match f {
+                            WFrame::MaxData(v) => s.max_data = s.max_data.max(v),
+                            WFrame::MaxStreamData { id, max } => {
+                                let init = initial_msd(*node, id);
+                                let e = s.msd.entry(id).or_insert(init);
+                                *e = (*e).max(max);
+                            }
+                            WFrame::MaxStreams { bidi, max } => {
+                                let d = if bidi { 0 } else { 1 };
+                                s.max_streams[d] = s.max_streams[d].max(max);
+                            }
+                            _ => {}
+                        }
+                    }
+                }
+            }
+            _ => {}
+        }
+    }
+    out.truncate(6);
+    (out, near)
 }
